@@ -87,6 +87,156 @@ def v2_layout(run):
                 run.add(f"C15/v2-exec/path{pi}/{o.name}@{o.loc}", o.hyps, o.goal, "side", inst)
 
 
+def _v1_spec_col(tf, order, bits, r, c):
+    acc = z3.BitVecVal(0, 32)
+    for i in range(8):
+        v = tf(r, 8 * c + order[i])
+        acc = acc | ((z3.ZeroExt(32 - bits, v) if bits < 32 else v) << (4 * i))
+    return acc
+
+
+def _source_writes(r):
+    return [f"{w[0]} into {getattr(w[1], 'name', '?')} at {w[4]}" for w in r.writes if w[0] == "tensor" and isinstance(w[1], STensor) and w[1].root().name == "T"]
+
+
+def _v1_pack_invariant(run, reorder, order, dtype):
+    """-> None when the invariant harness applied (obligations added), else the reason why it does not apply to this pack()."""
+    inst = {"layout": "v1", "reorder": reorder, "dtype": dtype}
+    bits = 8 if dtype == "uint8" else 32
+    E = run.engine(intmode="bv")
+    E.load_module(AWQP)
+    mod, node = E.find_function_node(AWQP, "pack")
+    loops = [n for n in node.body if isinstance(n, ast.For)]
+    if len(loops) != 1 or not (isinstance(loops[0].target, ast.Name)):
+        return "pack() no longer has the single column loop the invariant is stated for"
+    loop = loops[0]
+    pre = node.body[: node.body.index(loop)]
+    N, C = z3.Ints("N C")
+    col = z3.Int("col")
+    tf = z3.Function("T", z3.IntSort(), z3.IntSort(), z3.BitVecSort(bits))
+
+    def prog(E2, reorder=reorder):
+        E2.assume(N >= 1)
+        E2.assume(C >= 1)
+        t = new_input(E2, "T", dtype, [N, 8 * C], device="cuda")
+        env = Env(parent=mod.env)
+        env.vars.update({"unpacked": t, "reorder": reorder})
+        clo = E2.closure_for(f"{AWQP}::pack")
+        E2.frames.append(Frame(clo, env))
+        try:
+            E2.exec_block(pre, env)                      # bits, pack_num, packed = zeros(...)
+            packed0 = env.vars["packed"]
+            if not isinstance(packed0, STensor):
+                raise Unsupported("no tensor named packed before the loop")
+            init_shape = list(packed0.shape)
+            r_, c_ = z3.Ints("r c")
+            init_val = packed0.elem([r_, c_])
+            trip = E2.eval(loop.iter, env)                # range(unpacked.shape[1] // pack_num)
+            # consecution: an arbitrary tensor satisfying Inv(col), 0 <= col < trip
+            E2.assume(col >= 0)
+            E2.assume(col < C)
+            P = new_input(E2, "P", "int32", [N, C], device="cuda")
+            P.fresh = True
+            env.vars["packed"] = P
+            env.vars[loop.target.id] = col
+            pre_fn = P.snap()
+            E2.exec_block(loop.body, env)
+            post = env.vars["packed"]
+        finally:
+            E2.frames.pop()
+        return t, init_shape, init_val, trip, pre_fn, post
+
+    try:
+        res = E.explore(Builtin("v1pack", prog), lambda E2: ([], {}), name="C15.v1.pack")
+    except Unsupported as u:
+        return f"unsupported construct: {u}"
+    except KeyError as u:
+        return f"no variable {u} before the loop"
+    if any(r.outcome == "unsupported" for r in res):
+        return "; ".join(sorted({str(r.value)[:160] for r in res if r.outcome == "unsupported"}))
+    run.absorb(E)
+    tag = f"reorder={reorder}" + ("" if dtype == "uint8" else f"/{dtype}")
+    if not run.expect_paths(res, f"C15/v1-pack[{tag}]", inst):
+        return None
+    rp = (lambda m, s, ro=reorder: replay_layouts(m, s, "v1", ro)) if dtype == "uint8" else (lambda m, s, ro=reorder, dt=dtype: replay_v1_source(m, s, ro, dt))
+    for pi, r in enumerate(res):
+        if r.outcome != "return":
+            run.add(f"C15/v1-pack-body-runs[{tag}]/path{pi}", r.hyps, z3.BoolVal(False), "property", inst, {"outcome": repr(r.value)[:300]}, replay=rp)
+            continue
+        E.focus(r)
+        t, init_shape, init_val, trip, pre_fn, post = r.value
+        from qvc.interp import SymRange
+        okrange = isinstance(trip, SymRange) and trip.step == 1
+        run.add(f"C15/v1-pack-loop-range[{tag}]/path{pi}", r.hyps, z3.And(z3.BoolVal(bool(okrange)), zi(trip.stop) == C if okrange else z3.BoolVal(False),
+                                                                          zi(trip.start) == 0 if okrange else z3.BoolVal(False)), "helper", inst, {"function": "awq pack (v1)"}, replay=rp)
+        run.add(f"C15/v1-pack-invariant-initiation[{tag}]/path{pi}", r.hyps, z3.And(lib.shape_eq(init_shape, [N, C]), init_val == 0), "helper", inst, {"function": "awq pack (v1)"}, replay=rp)
+        rr, cc = z3.Ints("rr cc")
+        pf = z3.Function("P", z3.IntSort(), z3.IntSort(), z3.BitVecSort(32))
+        # Inv(col) instantiated at the indices read: columns >= col are zero
+        E.ps["touched"] = []
+        got = post.elem([rr, cc])
+        inv_facts = lib.touched_facts(E, lambda nm, idx: z3.Implies(idx[1] >= col, pf(*idx) == 0) if nm == "P" else None)
+        inb = [rr >= 0, rr < N, cc >= 0, cc < C]
+        want = z3.If(cc == col, _v1_spec_col(tf, order, bits, rr, col), pf(rr, cc))
+        run.add(f"C15/v1-pack-invariant-consecution[{tag}]/path{pi}", r.hyps + inb + inv_facts, got == want, "helper", inst, {"function": "awq pack (v1)"}, replay=rp, timeout=60)
+        wr = _source_writes(r)
+        run.add(f"C15/v1-pack-does-not-write-the-matrix-it-packs[{tag}]/path{pi}", r.hyps, z3.BoolVal(not wr), "property", inst, {"writes": wr[:3]},
+                replay=lambda m, s, ro=reorder, dt=dtype: replay_v1_source(m, s, ro, dt))
+        for o in r.obligations:
+            if o.kind in ("assert", "torch-pre", "callee-pre"):
+                run.add(f"C15/v1-pack-no-runtime-error[{tag}]/path{pi}/{o.name}@{o.loc}", o.hyps, o.goal, "property", inst, replay=rp)
+    return None
+
+
+def _v1_pack_direct(run, reorder, order, dtype):
+    """pack() executed as a whole on a symbolic N x 8C matrix (possible when it has no loop of symbolic trip count): result against the
+    layout specification, source not written.  -> None when it applied, else the reason."""
+    inst = {"layout": "v1", "reorder": reorder, "dtype": dtype, "harness": "whole function"}
+    bits = 8 if dtype == "uint8" else 32
+    E = run.engine(intmode="bv")
+    E.load_module(AWQP)
+    N, C = z3.Ints("N C")
+    tf = z3.Function("T", z3.IntSort(), z3.IntSort(), z3.BitVecSort(bits))
+
+    def prog(E2, reorder=reorder):
+        E2.assume(N >= 1)
+        E2.assume(C >= 1)
+        t = new_input(E2, "T", dtype, [N, 8 * C], device="cuda")
+        return E2.call(E2.get(f"{AWQP}::pack"), [t], {"reorder": reorder})
+
+    try:
+        res = E.explore(Builtin("v1packd", prog), lambda E2: ([], {}), name="C15.v1.pack.direct")
+    except Unsupported as u:
+        return f"unsupported construct: {u}"
+    if any(r.outcome == "unsupported" for r in res):
+        return "; ".join(sorted({str(r.value)[:160] for r in res if r.outcome == "unsupported"}))
+    run.absorb(E)
+    tag = f"reorder={reorder}/{dtype}/whole-function"
+    if not run.expect_paths(res, f"C15/v1-pack[{tag}]", inst):
+        return None
+    rp = lambda m, s, ro=reorder, dt=dtype: replay_v1_source(m, s, ro, dt)
+    for pi, r in enumerate(res):
+        if r.outcome != "return" or not isinstance(r.value, STensor):
+            run.add(f"C15/v1-pack-body-runs[{tag}]/path{pi}", r.hyps, z3.BoolVal(False), "property", inst, {"outcome": repr(r.value)[:300]}, replay=rp)
+            continue
+        E.focus(r)
+        out = r.value
+        run.add(f"C15/v1-packed-shape[{tag}]/path{pi}", r.hyps, z3.And(z3.BoolVal(out.dtype == "int32"), lib.shape_eq(out.shape, [N, C])), "property", inst, replay=rp)
+        wr = _source_writes(r)
+        run.add(f"C15/v1-pack-does-not-write-the-matrix-it-packs[{tag}]/path{pi}", r.hyps, z3.BoolVal(not wr), "property", inst, {"writes": wr[:3]}, replay=rp)
+        if not wr and len(out.shape) == 2:
+            rr, cc = z3.Ints("rr cc")
+            E.ps["touched"] = []
+            got = out.elem([rr, cc])
+            nib = lib.touched_facts(E, lambda nm, idx: z3.ULT(tf(*idx), 16) if nm == "T" else None)   # a 4-bit matrix
+            run.add(f"C15/v1-packed-word-is-the-layout-of-its-eight-codes[{tag}]/path{pi}", r.hyps + [rr >= 0, rr < N, cc >= 0, cc < C] + nib,
+                    got == _v1_spec_col(tf, order, bits, rr, cc), "property", inst, replay=rp, timeout=60)
+        for o in r.obligations:
+            if o.kind in ("assert", "torch-pre", "callee-pre"):
+                run.add(f"C15/v1-pack-no-runtime-error[{tag}]/path{pi}/{o.name}@{o.loc}", o.hyps, o.goal, "property", inst, replay=rp)
+    return None
+
+
 def v1_layout(run):
     """v1: the column loop of pack() has a symbolic trip count: inductive invariant
          Inv(col): columns < col hold OR_i T[:, 8c + order[i]] << 4i, columns >= col are 0
@@ -95,87 +245,18 @@ def v1_layout(run):
     for reorder in (False, True):
         inst = {"layout": "v1", "reorder": reorder}
         order = AWQ_ORDER if reorder else list(range(8))
-        E = run.engine(intmode="bv")
-        E.load_module(AWQP)
-        mod, node = E.find_function_node(AWQP, "pack")
-        loops = [n for n in node.body if isinstance(n, ast.For)]
-        if len(loops) != 1 or not (isinstance(loops[0].target, ast.Name)):
-            run.undecide("C15/v1-pack", "pack() no longer has the single column loop the invariant is stated for", inst)
-            continue
-        loop = loops[0]
-        pre = node.body[: node.body.index(loop)]
         N, C = z3.Ints("N C")
-        col = z3.Int("col")
         tf = z3.Function("T", z3.IntSort(), z3.IntSort(), z3.BitVecSort(8))
-
-        def spec_col(r, c):
-            acc = z3.BitVecVal(0, 32)
-            for i in range(8):
-                acc = acc | (z3.ZeroExt(24, tf(r, 8 * c + order[i])) << (4 * i))
-            return acc
-
-        def prog(E2, reorder=reorder):
-            E2.assume(N >= 1)
-            E2.assume(C >= 1)
-            t = new_input(E2, "T", "uint8", [N, 8 * C], device="cuda")
-            env = Env(parent=mod.env)
-            env.vars.update({"unpacked": t, "reorder": reorder})
-            clo = E2.closure_for(f"{AWQP}::pack")
-            E2.frames.append(Frame(clo, env))
-            try:
-                E2.exec_block(pre, env)                      # bits, pack_num, packed = zeros(...)
-                packed0 = env.vars["packed"]
-                init_shape = list(packed0.shape)
-                r_, c_ = z3.Ints("r c")
-                init_val = packed0.elem([r_, c_])
-                trip = E2.eval(loop.iter, env)                # range(unpacked.shape[1] // pack_num)
-                # consecution: an arbitrary tensor satisfying Inv(col), 0 <= col < trip
-                E2.assume(col >= 0)
-                E2.assume(col < C)
-                P = new_input(E2, "P", "int32", [N, C], device="cuda")
-                P.fresh = True
-                env.vars["packed"] = P
-                env.vars[loop.target.id] = col
-                pre_fn = P.snap()
-                E2.exec_block(loop.body, env)
-                post = env.vars["packed"]
-            finally:
-                E2.frames.pop()
-            return t, init_shape, init_val, trip, pre_fn, post
-
-        try:
-            res = E.explore(Builtin("v1pack", prog), lambda E2: ([], {}), name="C15.v1.pack")
-        except Unsupported as u:
-            run.undecide("C15/v1-pack", u, inst)
-            continue
-        run.absorb(E)
         tag = f"reorder={reorder}"
-        if not run.expect_paths(res, f"C15/v1-pack[{tag}]", inst):
-            continue
         rp = lambda m, s, ro=reorder: replay_layouts(m, s, "v1", ro)
-        for pi, r in enumerate(res):
-            if r.outcome != "return":
-                run.add(f"C15/v1-pack-body-runs[{tag}]/path{pi}", r.hyps, z3.BoolVal(False), "property", inst, {"outcome": repr(r.value)[:300]}, replay=rp)
-                continue
-            E.focus(r)
-            t, init_shape, init_val, trip, pre_fn, post = r.value
-            from qvc.interp import SymRange
-            okrange = isinstance(trip, SymRange) and trip.step == 1
-            run.add(f"C15/v1-pack-loop-range[{tag}]/path{pi}", r.hyps, z3.And(z3.BoolVal(bool(okrange)), zi(trip.stop) == C if okrange else z3.BoolVal(False),
-                                                                              zi(trip.start) == 0 if okrange else z3.BoolVal(False)), "helper", inst, {"function": "awq pack (v1)"}, replay=rp)
-            run.add(f"C15/v1-pack-invariant-initiation[{tag}]/path{pi}", r.hyps, z3.And(lib.shape_eq(init_shape, [N, C]), init_val == 0), "helper", inst, {"function": "awq pack (v1)"}, replay=rp)
-            rr, cc = z3.Ints("rr cc")
-            pf = z3.Function("P", z3.IntSort(), z3.IntSort(), z3.BitVecSort(32))
-            # Inv(col) instantiated at the indices read: columns >= col are zero
-            E.ps["touched"] = []
-            got = post.elem([rr, cc])
-            inv_facts = lib.touched_facts(E, lambda nm, idx: z3.Implies(idx[1] >= col, pf(*idx) == 0) if nm == "P" else None)
-            inb = [rr >= 0, rr < N, cc >= 0, cc < C]
-            want = z3.If(cc == col, spec_col(rr, col), pf(rr, cc))
-            run.add(f"C15/v1-pack-invariant-consecution[{tag}]/path{pi}", r.hyps + inb + inv_facts, got == want, "helper", inst, {"function": "awq pack (v1)"}, replay=rp, timeout=60)
-            for o in r.obligations:
-                if o.kind in ("assert", "torch-pre", "callee-pre"):
-                    run.add(f"C15/v1-pack-no-runtime-error[{tag}]/path{pi}/{o.name}@{o.loc}", o.hyps, o.goal, "property", inst, replay=rp)
+        for dtype in ("uint8", "int32"):
+            # int32: the dtype of the reference packer's intweight - there .to(torch.int32) returns the source itself
+            why = _v1_pack_invariant(run, reorder, order, dtype)
+            if why is not None:
+                # the column-loop invariant does not apply to this pack(): a pack() without a loop of symbolic trip count is executed as a whole
+                why2 = _v1_pack_direct(run, reorder, order, dtype)
+                if why2 is not None:
+                    run.undecide(f"C15/v1-pack[{tag}/{dtype}]", f"{why}; executed as a whole: {why2}", dict(inst, dtype=dtype))
         # sufficiency + round trip: unpack(PACKED_SPEC) == T
         E2 = run.engine(intmode="bv")
         E2.load_module(AWQP)
@@ -515,6 +596,29 @@ def replay_layouts(model, seed, which, reorder=False):
             t = torch.randint(0, 16, (n, k), dtype=torch.uint8)
             if not torch.equal(P.unpack(P.pack(t, reorder=reorder), reorder=reorder).to(torch.uint8), t):
                 return {"layout": "v1", "reorder": reorder, "shape": [n, k], "what": "unpack(pack(T)) != T"}
+    return None
+
+
+def replay_v1_source(model, seed, reorder, dtype):
+    """v1 pack on a 4-bit matrix held in the given dtype: the matrix is still the one that was packed, and unpack gives it back."""
+    import torch
+
+    torch.manual_seed(seed)
+    P = _cpu_module(AWQP, "optimum.quanto.tensor.qbits.awq.packed")
+    dt = getattr(torch, dtype)
+    for (n, k) in ((3, 8), (5, 24), (2, 64)):
+        t = torch.randint(0, 16, (n, k), dtype=dt)
+        t0 = t.clone()
+        try:
+            p = P.pack(t, reorder=reorder)
+            u = P.unpack(p, reorder=reorder)
+        except Exception as e:
+            return {"layout": "v1", "reorder": reorder, "dtype": dtype, "shape": [n, k], "what": f"raises {type(e).__name__}: {str(e)[:120]}"}
+        if not torch.equal(t, t0):
+            return {"layout": "v1", "reorder": reorder, "dtype": dtype, "shape": [n, k], "what": "pack() changed the matrix it packs",
+                    "columns_changed": sorted(set((t != t0).nonzero()[:, 1].tolist()))[:8]}
+        if list(p.shape) != [n, k // 8] or p.dtype != torch.int32 or not torch.equal(u.to(dt), t0):
+            return {"layout": "v1", "reorder": reorder, "dtype": dtype, "shape": [n, k], "what": "unpack(pack(T)) != T"}
     return None
 
 
